@@ -349,7 +349,7 @@ def build(prop, tier):
         br.obligations, names = count_obligations(cone)
         src = open(os.path.join(COQ, prop.coq_props)).read()
         br.theorems = [m.group(2) for m in _QED.finditer(re.sub(r'\(\*.*?\*\)', '', src, flags=re.S))]
-        n_print = len(re.findall(r'Print Assumptions', src))
+        n_print = len(re.findall(r'^\s*Print Assumptions\b', re.sub(r'\(\*.*?\*\)', '', src, flags=re.S), flags=re.M))
         if closed + len(ax_blocks) < n_print:
             br.ok = False; br.failed = "Print Assumptions output incomplete for %s" % prop.coq_props
         if tier == "thorough" and os.environ.get("VERIF_COQCHK", "1") == "1":
